@@ -616,6 +616,7 @@ const (
 	CBorrow
 	CUse
 	CShowVar
+	CRefCopy
 )
 
 type Cmd struct {
@@ -655,6 +656,8 @@ func (c Cmd) Coq() string {
 		return fmt.Sprintf("CUse %d %s", c.R, useNames[c.K])
 	case CShowVar:
 		return fmt.Sprintf("CShowVar %d", c.X)
+	case CRefCopy:
+		return fmt.Sprintf("CRefCopy %d %d", c.R, c.R0)
 	}
 	panic("cmd")
 }
@@ -907,6 +910,15 @@ func (st *State) Step(c Cmd) Rerr {
 	case CShowVar:
 		st.Logs = append(st.Logs, LogEnt{Kind: 2, Tree: st.Var(c.X).Clone()})
 		return ENone
+	case CRefCopy:
+		v, ok := st.Ref(c.R0)
+		if !ok {
+			return EStatic
+		}
+		if v.Kind == RDead {
+			return EInvalidRef
+		}
+		return st.setRef(c.R, v)
 	}
 	panic("step")
 }
